@@ -970,6 +970,34 @@ def _variants(
                 rows_cols=pcols + ob1,
                 methods=[("cummax", "w"), ("cummin", "w")],
             )
+            if len(ob2) == 2 and not any(c in pcols for c in ob2):
+                for tag, mask in (("r1", [ob2[0]]), ("r2", [ob2[1]]), ("r12", list(ob2))):
+                    emit(
+                        "w_shift_" + tag,
+                        "extend_windowed",
+                        ["extend", wparams({n1: "%s.shift()" % A}, partition_by=(part or 1), order_by=ob2, reverse=mask)],
+                        ext_schema({n1: (at, tj(A))}),
+                        rows_cols=pcols + ob2,
+                        reduced=(tag == "r1"),
+                        methods=[("shift", "w")],
+                    )
+                emit(
+                    "w_shift2_r1",
+                    "extend_windowed",
+                    ["extend", wparams({n1: "%s.shift(2)" % A}, partition_by=(part or 1), order_by=ob2, reverse=[ob2[0]])],
+                    ext_schema({n1: (at, tj(A))}),
+                    rows_cols=pcols + ob2,
+                    methods=[("shift", "w")],
+                )
+                for tag, mask in (("r0", []), ("r1", [ob2[0]]), ("r12", list(ob2))):
+                    emit(
+                        "w_firstlast_" + tag,
+                        "extend_windowed",
+                        ["extend", wparams({n1: "%s.first()" % A, n2: "%s.last()" % A}, partition_by=(part or 1), order_by=ob2, reverse=mask)],
+                        ext_schema({n1: (at, tj(A)), n2: (at, tj(A))}),
+                        rows_cols=pcols + ob2,
+                        methods=[("first", "w"), ("last", "w")],
+                    )
             emit(
                 "w_litcumsum",
                 "extend_windowed",
@@ -1126,6 +1154,8 @@ def _variants(
     if A is not None and A != B:
         emit("o_two_lim_rev", "order_rows", ["order_rows", {"columns": [B, A], "reverse": [B], "limit": 1}], st.schema, rows_cols=[A, B])
     emit("o_all_lim", "order_rows", ["order_rows", {"columns": list(cols), "reverse": [], "limit": 2}], st.schema, rows_cols=list(cols))
+    emit("o_lim0", "order_rows", ["order_rows", {"columns": [one], "reverse": [], "limit": 0}], st.schema, rows_cols=[one], reduced=True)
+    emit("o_lim_big", "order_rows", ["order_rows", {"columns": [one], "reverse": [one], "limit": 10}], st.schema, rows_cols=[one])
 
     # ---------------- two-table operators ----------------
     if two_table:
